@@ -254,7 +254,7 @@ def sc_churn(name, seed, mtu, rounds=5, all_entries=False, strangers=True):
     return Scenario(name, s.lines, {"mtu": mtu, "seed": seed})
 
 
-def sc_multihome(name, seed, n=120):
+def sc_multihome(name, seed, n=120, probes=0.20):
     """Several interfaces served by one responder instance, each with its own mapper, its own traffic and long
     silences: what an interface retains is its own business whatever happens (or does not happen) on the others,
     and a topology Reset on it leaves its constant record only."""
@@ -274,20 +274,21 @@ def sc_multihome(name, seed, n=120):
         own, m = macs[i], mp[i]
         seq += 1
         x = rng.random()
+        p1 = 0.15 + probes
         if x < 0.15:
             f = discover(rng.choice([0, 0, 1]), m, gen=rng.randrange(1, 65536), seq=seq)
-        elif x < 0.35:
+        elif x < p1:
             a = rnd_mac(rng)
             f = probe(a, own, a, own, train=rng.random() < 0.3)
-        elif x < 0.45:
+        elif x < p1 + 0.10:
             f = query(m, own, seq=seq)
-        elif x < 0.65:
+        elif x < p1 + 0.25:
             f = query_large(m, own, rng.choice([0x0E, 0x0E, 0x11, 0x13]), rng.choice([0, 0, 5, 899]), seq=seq, tos=rng.choice([0, 0, 1]))
-        elif x < 0.72:
+        elif x < p1 + 0.30:
             f = emit(m, own, [(1, 0, own, PEER)], seq=seq)
-        elif x < 0.82:
+        elif x < p1 + 0.35:
             f = reset(m, tos=1)
-        elif x < 0.90:
+        elif x < p1 + 0.38:
             f = reset(m, tos=0)
         else:
             f = discover(1, m, gen=rng.randrange(1, 65536), seq=seq)
@@ -389,6 +390,8 @@ def campaign_c03(seed, tier):
                 s.rx(1, hello(rng.choice([0, 1]), PEER, rng.randrange(65536), src, eth))
             s.rx(1, reset(src, tos=rng.choice([0, 1]) if rng.random() < 0.5 else tos))
         scs.append(Scenario("c03-tuples-%d" % i, s.lines))
+    for i in range(2 if tier == "quick" else 40):
+        scs.append(sc_multihome("c03-multihome-%d" % i, rng.randrange(1 << 30), n=100))
     return with_slow(scs, seed, every=4)
 
 
@@ -411,6 +414,13 @@ def campaign_c02(seed, tier):
     scs.append(sc_header_sweep("c02-hdr-otherservices", [2, 3, 4, 0x10, 0x7F, 0x80, 0xFF], allops if tier != "quick" else list(range(0, 32)) + [0x80, 0xFF], "mapper"))
     for ver in ([0, 2, 3, 0x10, 0x11, 0x81, 0xFF] if tier == "quick" else [v for v in range(256) if v != 1]):
         scs.append(sc_header_sweep("c02-hdr-ver%d" % ver, [0, 1], [0, 2, 4, 6, 8, 11], "mapper", ver=ver))
+    # full frames at every MTU residue (a QueryResp / Emit burst / large-TLV chunk that fills the MTU exactly)
+    for mtu in (MTUS_RESIDUES if tier == "quick" else MTUS_RESIDUES + [rng.randrange(576, 9217) for _ in range(60)]):
+        cap = (mtu - 34) // 20
+        scs.append(sc_c07_drain("c02-full-%d" % mtu, rng.randrange(1 << 16), mtu, rng.choice([cap, cap + 1, 2 * cap + 1]), dups=False, foreign=False))
+        scs.append(sc_c06("c02-emit-%d" % mtu, rng.randrange(1 << 30), mtu, mtu % 2))
+    for i in range(2 if tier == "quick" else 30):
+        scs.append(sc_multihome("c02-multihome-%d" % i, rng.randrange(1 << 30), n=80))
     return with_slow(scs, seed, every=6)
 
 
@@ -456,6 +466,8 @@ def campaign_c05(seed, tier):
         scs.append(sc_history("c05-hist-%d" % i, rng.randrange(1 << 30), n=60, wild=0.0 if i % 2 else 0.2))
     scs.append(sc_onebyte_mapper("c05-onebyte"))
     scs.append(sc_twobyte("c05-twobyte"))
+    for i in range(3 if tier == "quick" else 60):
+        scs.append(sc_multihome("c05-multihome-%d" % i, rng.randrange(1 << 30), n=100))
     return with_slow(scs, seed, every=6)
 
 
@@ -739,6 +751,8 @@ def campaign_c07(seed, tier):
         scs.append(sc_history("c07-hist-%d" % i, rng.randrange(1 << 30), n=60, wild=0.05, mtu=any_mtu(rng)))
     for i, mtu in enumerate([576, 576, 590, 1500] if tier == "quick" else [576] * 20 + [590] * 10 + [1500] * 10 + [rng.randrange(576, 2000) for _ in range(20)]):
         scs.append(sc_churn("c07-churn-%d-%d" % (mtu, i), rng.randrange(1 << 30), mtu))
+    for i in range(4 if tier == "quick" else 80):
+        scs.append(sc_multihome("c07-multihome-%d" % i, rng.randrange(1 << 30), n=150, probes=0.45))
     return with_slow(scs, seed, every=4)
 
 
